@@ -609,6 +609,61 @@ Proof.
     (eexists; split; [reflexivity | split; reflexivity]).
 Qed.
 
+(* ------------------------------------------------------------------ C15: Transaction-Finished of the cancelled
+   unacknowledged transaction (F21 repair): the sender's transaction ends with its EOF (cancel) PDU, and the user is
+   told through _notice_of_completion *)
+(* the checksum computation leaves the state alone and reads only the request, the metadata-only flag, the remote
+   configuration, the segment length and the filestore *)
+Lemma checksum_calculation_transfer : forall size s s' ck,
+  s_put s' = s_put s -> q_md_only (s_p s') = q_md_only (s_p s) -> q_rcfg (s_p s') = q_rcfg (s_p s) ->
+  q_segment_len (s_p s') = q_segment_len (s_p s) -> e_fs (s_env s') = e_fs (s_env s) ->
+  snd (checksum_calculation size s) = Ok ck -> checksum_calculation size s' = (s', Ok ck).
+Proof.
+  intros size s s' ck H1 H2 H3 H4 H5.
+  unfold checksum_calculation, put_or_assert, srcfg_or_assert, gq, gets, bind, ret, raise.
+  cbv beta. rewrite H1. destruct (s_put s) as [p|]; [|intro H; discriminate H].
+  rewrite H2. destruct (q_md_only (s_p s)); [cbn [snd]; intro H; rewrite H; reflexivity|].
+  destruct (pr_names p) as [[sn dn]|]; [|intro H; discriminate H].
+  rewrite H3. destruct (q_rcfg (s_p s)) as [r|]; [|intro H; discriminate H].
+  rewrite H4, H5.
+  destruct (r_cktype r =? CK_NULL); [cbn [snd]; intro H; rewrite H; reflexivity|].
+  destruct (lookup (e_fs (s_env s)) sn) as [[d|]|]; try (intro H; discriminate H).
+  destruct (calculate_checksum (r_cktype r) (Some d) size (q_segment_len (s_p s))) as [c|[]];
+    cbn [snd]; intro H; try discriminate H. rewrite H. reflexivity.
+Qed.
+
+Lemma source_cancel_unacked_reports : forall s a b cond ck,
+  sc_mode (q_conf (s_p s)) = UNACKED -> q_tid (s_p s) = Some (a, b) ->
+  (q_cond_eof (s_p s) = None \/ q_cond_eof (s_p s) = Some C_NO_ERROR) ->
+  snd (checksum_calculation (q_progress (s_p s)) s) = Ok ck ->
+  exists s', notice_of_cancellation_s cond s = (s', Ok true) /\
+    log_s s' = (if l_ind_fin (s_cfg s) then [EvFinished a b cond DATA_INCOMPLETE FS_UNREPORTED None] else []) ++
+               (if l_ind_eof_sent (s_cfg s) then [EvEofSent a b] else []) ++ log_s s /\
+    s_queue s' = s_queue s ++ [PEof (hdr_of (q_conf (s_p s)) TOWARDS_RECEIVER) cond ck (q_progress (s_p s)) None] /\
+    s_state s' = ST_IDLE /\ s_step s' = SS_IDLE /\ s_p s' = reset_sparams.
+Proof.
+  intros s a b cond ck Hm Htid Hce Hck.
+  assert (Hn : notice_of_cancellation_s cond s =
+               (setq (fun q => q <| q_cond_eof := Some cond |>) ;;;
+                pr <- gq q_progress ;; ck <- checksum_calculation pr ;;
+                prepare_eof_pdu ck ;;; handle_eof_sent true ;;; ret true) s).
+  { unfold notice_of_cancellation_s, gq. unfold bind at 1. unfold gets at 1.
+    destruct Hce as [H|H]; rewrite H; reflexivity. }
+  rewrite Hn. clear Hn Hce.
+  unfold setq. unfold bind at 1. unfold modify at 1.
+  unfold bind at 1. unfold gq at 1, gets at 1. cbv beta iota.
+  unfold bind at 1.
+  rewrite (checksum_calculation_transfer _ s _ ck); try reflexivity; [|exact Hck].
+  cbv beta iota. clear Hck.
+  destruct s as [cfg st step rdy qu q sb pt sc sbits env].
+  destruct q as [tid ckt akt akc ce pr sl fsz ef mdo fn rc cl conf].
+  destruct cfg as [lid lidw ieof i2 i3 ifin lf lck lrem].
+  destruct env as [nw fs rw lg].
+  cbn in Htid, Hm |- *. subst.
+  unfold prepare_eof_pdu, handle_eof_sent, notice_of_completion_s, srcfg_or_assert, stid_or_assert,
+    smode_is, stmode, sadd_packet, semit, snow, sset_step, sreset_internal, setq, gq, when, modify, gets, get, bind, ret, raise.
+  destruct ieof, ifin; cbn; destruct (st =? ST_IDLE); cbn; rewrite ?Hm; cbn; (eexists; split; [reflexivity|]); cbn; repeat split; reflexivity.
+Qed.
 Definition oid (k : Z) : Z * Z := ((k - 1000) / 100, (k - 1000) mod 100).
 
 Lemma orig_response : forall msgs found, originating_id msgs found true = None.
@@ -681,4 +736,5 @@ Print Assumptions metadata_params.
 Print Assumptions segment_params.
 Print Assumptions completion_reports_finished_pdu.
 Print Assumptions source_finished_copies_pdu.
+Print Assumptions source_cancel_unacked_reports.
 Print Assumptions originating_id_spec.
